@@ -6,6 +6,7 @@ import (
 	"math"
 	"math/big"
 	"sort"
+	"sync/atomic"
 
 	"github.com/aclements/go-moremath/stats"
 
@@ -71,6 +72,44 @@ func c04Sample(kind string, xs []float64) (stats.TTestSample, *big.Float, *big.F
 		s := &stats.StreamStats{}
 		cut1, cut2 := len(xs)/3, (2*len(xs)+1)/3
 		var a, b, e stats.StreamStats
+		switch variant := (len(xs) + int(math.Float64bits(xs[0])>>7)) % 4; {
+		case variant == 1 && len(xs) >= 4:
+			// observe, extend, observe: the prefix is read (every statistic,
+			// and a whole t-test) before the rest is merged in; what is
+			// judged is the test on the extended stream
+			w := &stats.StreamStats{}
+			for _, x := range xs[:cut2] {
+				w.Add(x)
+			}
+			mon.Call(func() {
+				_, _, _, _ = w.Mean(), w.Variance(), w.StdDev(), w.RMS()
+				_, _ = stats.OneSampleTTest(w, xs[0], stats.LocationDiffers)
+			})
+			var rest stats.StreamStats
+			for _, x := range xs[cut2:] {
+				rest.Add(x)
+			}
+			mon.Call(func() { _ = rest.Variance() })
+			w.Combine(&rest)
+			c04StreamVariant.Add(1)
+			return w, m.Mean, vr, kappa
+		case variant == 2 && len(xs) >= 3:
+			// the sample under test is a stream that has served as the
+			// ARGUMENT of Combine (into smaller and larger receivers): an
+			// operand must come out of a merge as it went in
+			op := &stats.StreamStats{}
+			for _, x := range xs {
+				op.Add(x)
+			}
+			var small, large stats.StreamStats
+			small.Add(xs[0] + 1)
+			for k := 0; k < 2*len(xs)+1; k++ {
+				large.Add(xs[k%len(xs)]*0.5 - 3)
+			}
+			mon.Call(func() { small.Combine(op); large.Combine(op) })
+			c04StreamVariant.Add(1 << 20)
+			return op, m.Mean, vr, kappa
+		}
 		for i, x := range xs {
 			switch {
 			case len(xs)%2 == 0:
@@ -96,6 +135,10 @@ func c04Sample(kind string, xs []float64) (stats.TTestSample, *big.Float, *big.F
 	}
 	return stats.Sample{Xs: xs}, m.Mean, vr, kappa
 }
+
+// c04StreamVariant counts how often the two StreamStats history variants were
+// built (low 20 bits: observe-extend-observe; next bits: used-as-operand).
+var c04StreamVariant atomic.Int64
 
 func bigAbs(x *big.Float) float64 { return math.Abs(ref.F64(x)) }
 
@@ -398,8 +441,20 @@ func c04MeanCI(w *mon.W, c c04Case) {
 		slack := relT*math.Abs(th)*ref.TPDF(nu, th)*2 + 2*tolM/se*ref.TPDF(nu, th)
 		w.HitIf(conf < 1e-6, "meanci-tiny-c")
 		w.HitIf(conf > 1-1e-6, "meanci-c-near-1")
-		if !w.Err("meanci-content", math.Abs(content-conf), 1e-9+slack) {
-			w.Violate("meanci-content", fmt.Sprintf("MeanCI(n=%d,c=%.12g)=(%.12g,%.12g,%.12g): Student-t content of the interval is %.12g", n, conf, mean, lo, hi, content), c)
+		// The content must be c; near the ends of [0,1] an absolute 1e-9 says
+		// nothing, so there the tolerance is relative to min(c, 1-c) (1e-6 of
+		// it) plus 4e-15 for the rounding of 1-(1-c)/2 that any
+		// implementation working through the upper quantile incurs. Near 1
+		// the comparison is made on the two tails, which are computed
+		// without cancellation.
+		tolC := math.Min(1e-9, 1e-6*math.Min(conf, 1-conf)) + 4e-15 + slack
+		errC := math.Abs(content - conf)
+		if conf > 0.5 && tl < 0 && th > 0 {
+			tails := ref.TCDF(nu, tl) + ref.TCDF(nu, -th)
+			errC = math.Abs(tails - ref.F64(ref.Sub(ref.NF(1), ref.NF(conf))))
+		}
+		if !w.Err("meanci-content", errC, tolC) {
+			w.Violate("meanci-content", fmt.Sprintf("MeanCI(n=%d,c=%.17g)=(%.12g,%.12g,%.12g): Student-t content of the interval is %.12g, i.e. 1-content=%.6g against 1-c=%.6g", n, conf, mean, lo, hi, content, 1-content, 1-conf), c)
 		}
 		if w.WantSample() {
 			w.Sample(map[string]any{"op": "MeanCI", "n": n, "c": conf, "mean": mean, "lo": lo, "hi": hi, "t_content_ref": content})
@@ -462,7 +517,7 @@ func hasSpread(xs []float64) bool {
 func c04Run(r *mon.Run) {
 	r.Rule("random samples of 2..40 finite values, |x|<=1e6, relative spread >=1e-6, equal/unequal sizes and variances, ties, one constant sample; mu0 from within 1e-9 standard errors of the mean to 30+ standard errors away; 3 alternatives; Sample, *StreamStats and a plain struct as TTestSample; related calls: swapped samples, power-of-two scaling, shifts; error inputs; MeanCI for c in [0,1] incl. 0,1,1e-12,1-1e-12. Non-trivial = hits a class; distinct by hash of inputs.")
 	r.Assume("means/variances/T/DoF recomputed at 384 bits from the exact float64 inputs; Student-t reference: closed form (integer DoF) / gonum mathext (Welch)", "tolerances follow the conditioning |mean|/sd of the inputs (DESIGN section 4b)")
-	r.Gate("paired-exact-differences", "paired-correlated-small-differences", "scaled-down-by-2^-20..-200", "equal-variances-unequal-sizes", "welch-unequal-n-and-variance", "tiny-T", "huge-T", "kind-sample", "kind-stream", "kind-struct",
+	r.Gate("both-constant-and-equal", "paired-exact-differences", "paired-correlated-small-differences", "scaled-down-by-2^-20..-200", "equal-variances-unequal-sizes", "welch-unequal-n-and-variance", "tiny-T", "huge-T", "kind-sample", "kind-stream", "kind-struct",
 		"error-"+stats.ErrSampleSize.Error(), "error-"+stats.ErrZeroVariance.Error(), "error-"+stats.ErrMismatchedSamples.Error(),
 		"meanci-empty", "meanci-c<=0", "meanci-infinite", "meanci-regular", "one-sample-zero-variance", "meanci-tiny-c", "meanci-c-near-1")
 	tests := []string{"two", "welch", "paired", "one"}
@@ -610,6 +665,10 @@ func c04Run(r *mon.Run) {
 				n2 = n1
 			}
 			a, b := rng.Uniform(-100, 100), rng.Uniform(-100, 100)
+			if rng.Intn(3) == 0 {
+				b = a // the same constant in both samples
+				w.Hit("both-constant-and-equal")
+			}
 			c.X1, c.X2 = make([]float64, n1), make([]float64, n2)
 			for k := range c.X1 {
 				c.X1[k] = a
@@ -632,6 +691,9 @@ func c04Run(r *mon.Run) {
 			}
 		}
 		c.Mu0 = rng.Uniform(-1, 1)
+		if len(c.X1) > 0 && rng.Intn(3) == 0 {
+			c.Mu0 = c.X1[0] // a constant sample tested against its own value
+		}
 		w.Distinct(mon.NewHasher().S("err").S(test).S(c.Kind).Fs(c.X1).Fs(c.X2).Sum())
 		c04Judge(w, c)
 	})
@@ -673,6 +735,12 @@ func c04Run(r *mon.Run) {
 		w.Distinct(mon.NewHasher().S("ci").Fs(c.X1).F(conf).Sum())
 		c04Judge(w, c)
 	})
+	v := c04StreamVariant.Load()
+	r.Extra("streams_observed_then_extended_then_tested", v&(1<<20-1))
+	r.Extra("streams_tested_after_serving_as_Combine_operand", v>>20)
+	if v&(1<<20-1) == 0 || v>>20 == 0 {
+		r.Inconclusive("a StreamStats history variant was never built")
+	}
 }
 
 // c04EqualVar: pairs of small-integer samples of different sizes whose sample
